@@ -32,10 +32,14 @@ RECURSIVE BondSeqs(_, _)
 BondSeqs(n, k) == IF k = 0 THEN {<<>>}
                   ELSE BondSeqs(n, k - 1) \cup {Append(b, p) : b \in {b \in BondSeqs(n, k - 1) : Len(b) = k - 1}, p \in Pairs(n)}
 
-Init == \E n \in 1..MaxAtoms, s \in Schemes, c0 \in 0..2 :
-        \E bs \in BondSeqs(n, IF n = 1 THEN 0 ELSE MaxBonds) :
-           doc = [atoms |-> AtomsFor(n, s, c0),
-                  bonds |-> [k \in 1..Len(bs) |-> [a |-> Id(s, n, bs[k][1]), b |-> Id(s, n, bs[k][2]), order |-> (k % 2) + 1]]]
+\* long documents (ids with two digits): a ring of n atoms
+Long(n, s) == [atoms |-> AtomsFor(n, s, 0),
+               bonds |-> [k \in 1..n |-> [a |-> Id(s, n, k), b |-> Id(s, n, (k % n) + 1), order |-> (k % 2) + 1]]]
+Short == \E n \in 1..MaxAtoms, s \in Schemes, c0 \in 0..2 :
+         \E bs \in BondSeqs(n, IF n = 1 THEN 0 ELSE MaxBonds) :
+            doc = [atoms |-> AtomsFor(n, s, c0),
+                   bonds |-> [k \in 1..Len(bs) |-> [a |-> Id(s, n, bs[k][1]), b |-> Id(s, n, bs[k][2]), order |-> (k % 2) + 1]]]
+Init == (\E n \in {12, 23}, s \in {"seq", "shuffled", "reversed", "offbyone"} : doc = Long(n, s)) \/ Short
 Next == UNCHANGED doc
 Spec == Init /\ [][Next]_vars
 ModelInv == WellFormed(doc) /\ Len(Load(doc).bonds) = Len(doc.bonds)
